@@ -31,7 +31,7 @@ func init() {
 			"fragmenting readers obey the io.Reader contract: at least one byte or an error per call for non-empty p; n > 0 may come together with io.EOF",
 			"failure kinds: ok / tracks missing / end-of-data family / other",
 		},
-		Require: []string{"reads_from_sources_with_len_method", "files_with_bytes_behind_end_of_track", "fragmented_reads", "short_reads_in_multibyte_field", "split_points", "eof_with_data_reads", "truncated_files", "compared_ok_values", "compared_failures", "big_payload_files", "big_truncated_reads", "file_and_bufio_reads", "pipe_reads", "extended_header_files"},
+		Require: []string{"reads_from_sources_with_len_method", "several_big_payload_reads", "files_with_bytes_behind_end_of_track", "fragmented_reads", "short_reads_in_multibyte_field", "split_points", "eof_with_data_reads", "truncated_files", "compared_ok_values", "compared_failures", "big_payload_files", "big_truncated_reads", "file_and_bufio_reads", "pipe_reads", "extended_header_files"},
 		Run:     runC09,
 	})
 }
@@ -218,6 +218,54 @@ func runC09(c *mon.Ctx) {
 
 // runC09Sources: source kinds beyond plain fragmenting readers
 func runC09Sources(c *mon.Ctx) {
+	// (0) several large payloads in one file, in growing, shrinking and mixed order (a buffer kept from one
+	// payload to the next has room to spare for a smaller one): a few fragmentations each
+	bigPairs := [][]int{{100_000, 70_000}, {70_000, 100_000}, {70_000, 200, 65_600}, {65_536, 65_536}, {300_000, 65_537, 70_000}, {5000, 4097}, {20_000, 4100, 16_384}}
+	c.Each("several-big-payloads", int64(len(bigPairs)), func(i int64, r *mon.Rand) {
+		var tr []ref.EncEv
+		for k, n := range bigPairs[i] {
+			p := r.Bytes7(n)
+			var m []byte
+			if (k+int(i))%2 == 0 {
+				m = append(append([]byte{0xF0}, p...), 0xF7)
+			} else {
+				m = ref.Meta(0x7F, p)
+			}
+			tr = append(tr, ref.EncEv{Ev: ref.Ev{Delta: uint32(k), Msg: m}}, ref.EncEv{Ev: ref.Ev{Delta: 1, Msg: []byte{0x90, byte(k), 1}}})
+		}
+		tr = append(tr, ref.EncEv{Ev: ref.Ev{Delta: 0, Msg: ref.EOT}})
+		f := &ref.EncFile{Format: 0, Division: 96, NTracks: -1, Tracks: [][]ref.EncEv{tr}}
+		b := f.Bytes(nil)
+		truth := f.Truth()
+		in := map[string]any{"payload_sizes_in_file_order": bigPairs[i], "file_size": len(b)}
+		readers := map[string]func() io.Reader{
+			"memory (bytes.Reader)": func() io.Reader { return bytes.NewReader(b) },
+			"one byte per Read":     func() io.Reader { return iotest.OneByteReader(bytes.NewReader(b)) },
+			"half reads":            func() io.Reader { return iotest.HalfReader(bytes.NewReader(b)) },
+			"data with EOF":         func() io.Reader { return iotest.DataErrReader(bytes.NewReader(b)) },
+			"bufio 4096":            func() io.Reader { return bufio.NewReaderSize(bytes.NewReader(b), 4096) },
+			"records of 1000":       func() io.Reader { return &fragReader{chunkReader: chunkReader{b: b, chunks: r.Partition(len(b), 1000)}} },
+			"records of 70000":      func() io.Reader { return &fragReader{chunkReader: chunkReader{b: b, chunks: r.Partition(len(b), 70_000)}} },
+		}
+		for name, mk := range readers {
+			var got *smf.SMF
+			var err error
+			if c.Guard("panic:several-big", in, func() { got, err = smf.ReadFrom(mk()) }) {
+				continue
+			}
+			c.Count("several_big_payload_reads", 1)
+			c.Eval(1)
+			if err != nil {
+				c.Violation("kind:several-big", fmt.Sprintf("valid file with payloads of %v bytes read through %s: %v", bigPairs[i], name, err), in, "ok", err.Error())
+				continue
+			}
+			if d := ref.EqualFiles(truth, fromLib(got)); d != "" {
+				c.Violation("value:several-big", fmt.Sprintf("valid file with payloads of %v bytes read through %s: %s", bigPairs[i], name, d), in, nil, nil)
+			}
+		}
+		c.DistinctBytes([]byte(fmt.Sprint("several-big", bigPairs[i])))
+	})
+
 	// (a) truncated files with more than 4 KiB of a large payload present, all reader flavours
 	c.Each("big-truncated", c.N(40, 600), func(i int64, r *mon.Rand) {
 		n := r.Pick(4097, 5000, 6000, 8193, 16385)
